@@ -776,6 +776,7 @@ type kinds struct {
 	kVal   *evid.Kind[ValCase]
 	kAddr  *evid.Kind[AddrCase]
 	kBytes *evid.Kind[HexCase]
+	kSeq   *evid.Kind[SeqCase]
 }
 
 func register(rec *evid.Recorder) kinds {
@@ -785,6 +786,7 @@ func register(rec *evid.Recorder) kinds {
 		kVal:   evid.NewKind(rec, "val", judgeVal),
 		kAddr:  evid.NewKind(rec, "addr", judgeAddr),
 		kBytes: evid.NewKind(rec, "bytes", judgeBytes),
+		kSeq:   evid.NewKind(rec, "seq", judgeSeq),
 	}
 }
 
@@ -876,6 +878,25 @@ func TestCheck(t *testing.T) {
 		text, how := genIntText(rt)
 		nt, cl := intClasses(text)
 		k.kInt.Check(rt, IntCase{Text: text}, nt, append(cl, "gen:"+how)...)
+	})
+
+	// histories: results of earlier parses must survive later parses
+	rec.Rapid(t, "seq", rec.N(3000, 20000), func(rt *rapid.T) {
+		n := rapid.IntRange(2, 8).Draw(rt, "n")
+		var texts []string
+		floats := 0
+		for i := 0; i < n; i++ {
+			text, _ := genIntText(rt)
+			if d := numref.Classify(text); d.Form == numref.FormFloat && d.Class == numref.Integer {
+				floats++
+			}
+			texts = append(texts, text)
+		}
+		cl := "seq:<2-float-spellings"
+		if floats >= 2 {
+			cl = "seq:>=2-float-spellings"
+		}
+		k.kSeq.Check(rt, SeqCase{Texts: texts}, floats >= 2, cl)
 	})
 
 	rec.Rapid(t, "doc", rec.N(15000, 60000), func(rt *rapid.T) {
